@@ -168,7 +168,7 @@ type ReqOpts struct {
 // ReqInfo describes features of a generated request (for classification).
 type ReqInfo struct {
 	Folded, NearMiss, MixedFraming, Expect, DupCL, LeadingZeroCL, Trailers, H10 bool
-	FoldedNames                                                               map[string]bool
+	FoldedNames                                                                 map[string]bool
 }
 
 // GenReq draws one well-formed, unambiguously framed request. last says the
@@ -274,10 +274,15 @@ func GenReq(t *rapid.T, idx int, o ReqOpts) (*wire.Req, *ReqInfo) {
 					continue
 				}
 				names = append(names, nm)
-				v, _ := HeaderValue(t, false)
+				v, folded := HeaderValue(t, o.Fold)
 				v = strings.Trim(v, " \t")
 				if v == "" {
 					v = "tv"
+				}
+				if folded {
+					// trailer fields are header fields: obs-fold applies to them as well
+					info.Folded = true
+					info.FoldedNames[strings.ToLower(nm)] = true
 				}
 				r.Trailers = append(r.Trailers, wire.KV{K: nm, V: v})
 			}
@@ -469,9 +474,10 @@ func (s *Stream) Encode() {
 
 // RespOpts steers GenResp.
 type RespOpts struct {
-	Fold       bool
-	UntilClose bool // until-close framing allowed (last response on a connection)
-	Huge       bool
+	FoldTrailers bool // obs-folded trailer values even when Fold is off
+	Fold         bool
+	UntilClose   bool // until-close framing allowed (last response on a connection)
+	Huge         bool
 }
 
 // GenResp draws a well-formed response to a request with the given method.
@@ -530,7 +536,11 @@ func GenResp(t *rapid.T, idx int, method string, o RespOpts) *wire.Resp {
 		r.HexUpper = rapid.Bool().Draw(t, "respHexUpper")
 		if rapid.IntRange(0, 2).Draw(t, "respTrailers") == 0 {
 			nm := rapid.SampledFrom([]string{"X-Trailer-A", "X-Checksum"}).Draw(t, "respTrailerName")
-			r.Trailers = append(r.Trailers, wire.KV{K: nm, V: "tv" + fmt.Sprint(idx)})
+			tv := "tv" + fmt.Sprint(idx)
+			if (o.Fold || o.FoldTrailers) && rapid.IntRange(0, 2).Draw(t, "respTrailerFold") == 0 {
+				tv += rapid.SampledFrom([]string{"\r\n ", "\r\n\t", "\r\n  "}).Draw(t, "respTrailerFoldSep") + "cont"
+			}
+			r.Trailers = append(r.Trailers, wire.KV{K: nm, V: tv})
 			lines = append(lines, wire.KV{K: "Trailer", V: nm})
 		}
 	}
@@ -551,13 +561,19 @@ func GenResp(t *rapid.T, idx int, method string, o RespOpts) *wire.Resp {
 
 var hostileBytes = []byte{'\r', '\n', 0, ' ', '\t', ':', ';', ',', '=', '&', '%', '+', '/', '.', '\\', '"', '-', '0', '9', 'a', 'Z', 0x7f, 0x80, 0xff}
 
+// hostileNumbers sit on every integer boundary a length parser can trip over, in decimal and in hex
+// with exactly 8, 15, 16 and 17 digits (chunk sizes are hex; an int has 16 hex digits, its sign bit the top one).
+var hostileNumbers = []string{"0", "1", "-1", "99999999999999999999", "18446744073709551615", "18446744073709551614", "18446744073709551616", "4294967296", "4294967295", "2147483648", "2147483647",
+	"9223372036854775807", "9223372036854775806", "9223372036854775808", "00000000000000000001", "1e3", "0x5", "", " 7",
+	"7fffffff", "80000000", "ffffffff", "100000000", "fffffffffffffff", "7fffffffffffffff", "7ffffffffffffffe", "8000000000000000", "8000000000000001", "fffffffffffffffe", "ffffffffffffffff", "FFFFFFFFFFFFFFFF", "10000000000000000", "0000000000000000000000001"}
+
 var hostileSnippets = []string{
 	"Trailer: a,,b\r\n", "Trailer: ,\r\n", "Trailer: Content-Length\r\n", "Trailer: \r\n", "Transfer-Encoding: chunked\r\n", "Content-Length: 5\r\n", "Content-Length: -1\r\n",
 	"Content-Length: 18446744073709551616\r\n", "Content-Length: 9223372036854775807\r\n", "Content-Length: 99999999999999999999\r\n", "Content-Length: 0x10\r\n", "Content-Length: +5\r\n", "Content-Length: 5 5\r\n", "Content-Length:\r\n",
 	"Transfer-Encoding: identity\r\n", "Transfer-Encoding: gzip, chunked\r\n", "Expect: 100-continue\r\n", "Connection: close\r\n", "Connection: keep-alive, close\r\n", "Host: \r\n", "Host: a\r\nHost: b\r\n",
 	"Content-Type: multipart/form-data; boundary=\r\n", "Content-Type: multipart/form-data; boundary=\"\r\n", "Content-Type: multipart/form-data; boundary=x\r\n", "Content-Type: multipart/form-data\r\n",
 	"Cookie: =; ;=; a\r\n", "Cookie: a=\"b; c\r\n", "Range: bytes=-\r\n", "If-Modified-Since: x\r\n", ": novalue\r\n", "NoColon\r\n", " leading: space\r\n", "\r\n", "\n", "\r", "\r\r\n", "\n\n",
-	"ffffffffffffffffff\r\n", "7fffffffffffffff\r\n", "-1\r\n", "0\r\n\r\n", "1;ext\r\na\r\n", "GET a:b HTTP/1.1\r\n\r\n", "GET * HTTP/1.1\r\nHost: h\r\n\r\n", "GET http://h/p HTTP/1.1\r\nHost: h\r\n\r\n", "GET //h//p HTTP/1.1\r\nHost: h\r\n\r\n",
+	"ffffffffffffffffff\r\n", "7fffffffffffffff\r\n", "ffffffffffffffff\r\n", "8000000000000000\r\n", "7ffffffffffffffe\r\n", "1\r\na\r\n7fffffffffffffff\r\n", "-1\r\n", "0\r\n\r\n", "1;ext\r\na\r\n", "GET a:b HTTP/1.1\r\n\r\n", "GET * HTTP/1.1\r\nHost: h\r\n\r\n", "GET http://h/p HTTP/1.1\r\nHost: h\r\n\r\n", "GET //h//p HTTP/1.1\r\nHost: h\r\n\r\n",
 	"OPTIONS * HTTP/1.1\r\nHost: h\r\n\r\n", "CONNECT h:1 HTTP/1.1\r\n\r\n", "GET / HTTP/1.1\r\n\r\n", "GET / HTTP/0.9\r\n\r\n", "GET /\r\n\r\n", " / HTTP/1.1\r\n\r\n", "GET  HTTP/1.1\r\nHost: h\r\n\r\n",
 	"HTTP/1.1 200 OK\r\n\r\n", "HTTP/1.1 100 Continue\r\n\r\n", "HTTP/1.1 999\r\n\r\n", "HTTP/1.1 abc OK\r\n\r\n", "HTTP/1.1 20\r\n\r\n", "HTTP/1.1\r\n\r\n", "Set-Cookie: a=b; SameSite=\r\n", "Set-Cookie: =\r\n", "Set-Cookie: a=b; expires=x; max-age=y\r\n",
 }
@@ -652,10 +668,14 @@ func Mutate(t *rapid.T, b []byte, marks []int) ([]byte, []string) {
 			if len(ds) > 0 {
 				j := rapid.SampledFrom(ds).Draw(t, "digitRun")
 				e := j
-				for e < len(out) && out[e] >= '0' && out[e] <= '9' {
-					e++
+				isHex := func(c byte) bool {
+					return c >= '0' && c <= '9' || c >= 'a' && c <= 'f' || c >= 'A' && c <= 'F'
 				}
-				num := rapid.SampledFrom([]string{"0", "1", "-1", "99999999999999999999", "18446744073709551615", "4294967296", "2147483648", "9223372036854775807", "00000000000000000001", "1e3", "0x5", "", " 7"}).Draw(t, "number")
+				lineStart := j == 0 || out[j-1] == '\n'
+				for e < len(out) && (out[e] >= '0' && out[e] <= '9' || lineStart && isHex(out[e])) {
+					e++ // a run at a line start is (most often) a chunk-size line: replace all its hex digits
+				}
+				num := rapid.SampledFrom(hostileNumbers).Draw(t, "number")
 				out = append(out[:j:j], append([]byte(num), out[e:]...)...)
 				names = append(names, "hostile-number")
 			}
